@@ -185,7 +185,9 @@ var baselines = map[string]func(e env) proto.Message{
 			StartTime: &timestamppb.Timestamp{Seconds: 1, Nanos: 1}}
 	},
 	"CreateStore": func(e env) proto.Message { return &openfgav1.CreateStoreRequest{Name: "c19-store"} },
-	"UpdateStore": func(e env) proto.Message { return &openfgav1.UpdateStoreRequest{StoreId: e.StoreID, Name: "c19-renamed"} },
+	"UpdateStore": func(e env) proto.Message {
+		return &openfgav1.UpdateStoreRequest{StoreId: e.StoreID, Name: "c19-renamed"}
+	},
 	"DeleteStore": func(e env) proto.Message { return &openfgav1.DeleteStoreRequest{StoreId: e.StoreID} },
 	"GetStore":    func(e env) proto.Message { return &openfgav1.GetStoreRequest{StoreId: e.StoreID} },
 	"ListStores": func(e env) proto.Message {
